@@ -951,6 +951,27 @@ SYNC_PARITY_WRITER = dict(region='sync_parity_writer', file='cmdline/sync.c', be
                           max_lines=45, expect_loops=0, proto='static void region_sync_parity_writer(struct snapraid_worker *worker, struct snapraid_task *task)')
 
 
+SCRUB_PARITY_READ = dict(region='scrub_parity_read', file='cmdline/scrub.c', scope='static int state_scrub_process(struct snapraid_state* state, struct snapraid_parity_handle* parity_handle, block_off_t blockstart, block_off_t blockmax, struct snapraid_plan* plan, time_t now)', begin='/* read the parity */', end="/* if we have read all the data required and it's correct, proceed with the parity check */", max_lines=70, expect_loops=1,
+                         proto='static void region_scrub_parity_read(struct snapraid_state *state, struct snapraid_io *iop, block_off_t blockcur, void **buffer_recov, unsigned *io_error_p, unsigned *error_p, int *error_on_p, int *io_on_p, int *bailed)',
+                         prologue='\tstruct snapraid_io io;\n\tunsigned l, waiting_map[LEV_MAX], waiting_mac = 0;\n\tunsigned io_error = *io_error_p, error = *error_p;\n\tint error_on_this_block = *error_on_p, io_error_on_this_block = *io_on_p;\n\t(void)iop;',
+                         epilogue='\tgoto out;\nbail:\n\t*bailed = 1;\nout:\n\t*io_error_p = io_error; *error_p = error; *error_on_p = error_on_this_block; *io_on_p = io_error_on_this_block;')
+SCRUB_PARITY_COMPARE = dict(region='scrub_parity_compare', file='cmdline/scrub.c', begin="/* if we have read all the data required and it's correct, proceed with the parity check */", end='/* until now is raid */',
+                            max_lines=40, expect_loops=1, brace_balance=1,
+                            proto='static void region_scrub_parity_compare(struct snapraid_state *state, unsigned diskmax, block_off_t blockcur, void **buffer, void **buffer_recov, int block_is_unsynced, int error_on_this_block, int silent_error_on_this_block, int io_error_on_this_block, unsigned *error_p, unsigned *silent_p, int *error_on_p, int *silent_on_p)',
+                            prologue='\tunsigned l;\n\tunsigned error = *error_p, silent_error = *silent_p;',
+                            epilogue='\t} /* closes the block the region text opened */\n\t*error_p = error; *silent_p = silent_error; *error_on_p = error_on_this_block; *silent_on_p = silent_error_on_this_block;')
+
+
+def scrubpar_obs():
+    H = 'harness/h_scrubpar.c'
+    return [Ob('scrub.parity_read.region', H, 'h_scrub_parity_read', inject=[SCRUB_PARITY_READ, SCRUB_PARITY_COMPARE], unwind=8, small_path=True, timeout=900, mem=6, cost=6, replay=False,
+               functions=['state_scrub_process: region "read the parity" (cmdline/scrub.c, extracted mechanically)'],
+               note='1..6 levels completing in any order, every outcome per level, counters and I/O error limit; io_parity_read by stub'),
+            Ob('scrub.parity_compare.region', H, 'h_scrub_parity_compare', inject=[SCRUB_PARITY_READ, SCRUB_PARITY_COMPARE], unwind=8, small_path=True, timeout=900, mem=6, cost=6, replay=False, kind='bounded', bound='block size 4, 2 data disks',
+               functions=['state_scrub_process: region "proceed with the parity check" (cmdline/scrub.c, extracted mechanically)'],
+               note='1..6 levels, every recomputed and on-disk parity content, readable / unreadable levels, synced / unsynced stripe, every combination of earlier error flags; raid_gen by stub (its own units: C02)')]
+
+
 def syncrd_obs():
     R = 'harness/h_syncrd.c'
     return [Ob('io.parity_reader_writer', R, 'h_parity_rw', inject=[SYNC_DATA_READER, SYNC_TASK_STATE, SCRUB_PARITY_READER, SYNC_PARITY_WRITER], defs={'VERIF_PARITY_RW': None}, unwind=4, small_path=True, timeout=600, mem=6, cost=3, replay=False,
@@ -977,7 +998,7 @@ def c08(tier, seed):
                timeout=900, mem=8, cost=5, replay=False,
                functions=['state_sync_process: region "handle errors reported" .. "mark the state as needing write" (cmdline/sync.c, extracted mechanically)'],
                note='every vector of writer error counts and every error limit; info_set replaced by a recording contract (dfcc)',
-               expect_fail=['a parity write I/O error leaves some stripe marked bad'])] + c06u + c15u + syncrd_obs()
+               expect_fail=['a parity write I/O error leaves some stripe marked bad'])] + c06u + c15u + syncrd_obs() + scrubpar_obs()
 
 
 # ---------------------------------------------------------------- composed properties
@@ -989,7 +1010,7 @@ def c16(tier, seed):
 
 def c04(tier, seed):
     c15 = [o for o in PROPS['C15']['obligations'](tier, seed) if o.name in ('scrub.mark.region', 'scrub.classify.region', 'scrub.block_is_enabled', 'scrub.info_word')]
-    return [o for o in check_obs(tier) if o.name == 'check.blockcmp'] + sync_hash_obs() + c15 + [o for o in syncrd_obs() if o.name == 'scrub.data_reader'] + status_obs() + [o for o in openmode_obs() if o.name == 'handle.read']
+    return [o for o in check_obs(tier) if o.name == 'check.blockcmp'] + sync_hash_obs() + c15 + [o for o in syncrd_obs() if o.name == 'scrub.data_reader'] + status_obs() + [o for o in openmode_obs() if o.name == 'handle.read'] + scrubpar_obs()
 
 
 def c01(tier, seed):
